@@ -293,7 +293,7 @@ MUTANTS = [
          old="        final_distribution = reduced_ve._variable_elimination(\n            variables=variables,\n            operation=\"marginalize\",\n            evidence=evidence,\n            elimination_order=elimination_order,\n            joint=True,",
          new="        final_distribution = reduced_ve._variable_elimination(\n            variables=variables,\n            operation=\"maximize\",\n            evidence=evidence,\n            elimination_order=elimination_order,\n            joint=True,"),
     dict(kind="break", name="bp-map-default-after-rebind", file=EI, expect="C03.scope",
-         old="        # TODO:Check the note in docstring. Change that behavior to return the joint MAP\n        if not variables:\n            variables = list(self.model.nodes())\n\n        # Make a copy of the original model and then replace self.model with it later.\n        orig_model = self.model.copy()\n",
+         old="        # TODO:Check the note in docstring. Change that behavior to return the joint MAP\n        if not variables:\n            variables = [var for var in self.model.nodes() if var not in evidence]\n\n        # Make a copy of the original model and then replace self.model with it later.\n        orig_model = self.model.copy()\n",
          new="        # Make a copy of the original model and then replace self.model with it later.\n        orig_model = self.model.copy()\n"),
     dict(kind="twin", name="assignment-explicit-slice", file=DF,
          old="        assignments = compat_fns.flip(assignments, axis=(1,))\n", new="        assignments = assignments[:, ::-1]\n"),
